@@ -174,6 +174,7 @@ pub struct LinkStats {
     /// genuine (unmodified, incl. duplicated) secret-control datagrams delivered, by kind
     pub genuine_secret_control: BTreeMap<String, u64>,
     pub forged_secret_control: BTreeMap<String, u64>,
+    pub max_len: [u32; 2],
     pub genuine_ups_known_id: u64,
     pub equiv_ups_delivered: u64,
     pub forged_first_flight: u64,
@@ -307,6 +308,9 @@ impl LinkState {
         let bytes = packet.transport.payload().clone();
         let meta = if self.decode { decode_meta(&bytes) } else { Meta::default() };
         *self.stats.kinds_seen.entry(kind_name(meta.kind).to_string()).or_insert(0) += 1;
+        if bytes.len() as u32 > self.stats.max_len[d] {
+            self.stats.max_len[d] = bytes.len() as u32;
+        }
         if meta.is_retx {
             self.stats.retx_seen += 1;
         }
@@ -634,14 +638,11 @@ impl LinkState {
         Some((Bytes::from(v), note, changed))
     }
 
-    fn on_deliver(&mut self, rec: usize) {
+    fn on_deliver(&mut self, rec: usize) -> bool {
         if self.closed {
-            return;
+            return false;
         }
         let t = now_ns();
-        if std::env::var("VERIF_DEBUG").is_ok() {
-            eprintln!("deliver rec {rec} t {t} ord {} label {}", self.log[rec].ord, self.log[rec].label);
-        }
         let (dir, ord, dst, label, kind, flow, equiv, known_id) = {
             let r = &mut self.log[rec];
             r.t_deliver_ns = t;
@@ -687,6 +688,7 @@ impl LinkState {
                 self.stats.genuine_ups_known_id += 1;
             }
         }
+        true
     }
 }
 
@@ -761,8 +763,10 @@ impl Allocator for SimLink {
                             if o.delay_us > 0 {
                                 bach::time::sleep(Duration::from_micros(o.delay_us)).await;
                             }
-                            shared.lock().unwrap().on_deliver(o.rec);
-                            dispatch.send(o.packet).await;
+                            let live = shared.lock().unwrap().on_deliver(o.rec);
+                            if live {
+                                dispatch.send(o.packet).await;
+                            }
                         }
                         .spawn_named("pkt");
                     }
